@@ -211,8 +211,7 @@ def run_case(case):
                 run = ("import sys\nfrom amr_kitchen.combine import cli\nsys.argv = %r\ncli.main()\n" % (cli_argv(v['vars'][0], v['vars'][1]),))
             exp = expected(ref1, ref2, *v['vars'])
             expd = {'kind': 'raise'} if exp is None else {'kind': 'tree', 'tree_exp': exp, 'compare': 'bits'}
-        d = replay_lib.make_tool_replay('C06', sig, v['what'], {'plt1': (fs, '/work/plt1'), 'plt2': (fs, '/work/plt2')}, run, expd)
-        status, out = common.run_replay(d)
+        d, status, out = common.replay_portfolio(lambda: replay_lib.make_tool_replay('C06', sig, v['what'], {'plt1': (fs, '/work/plt1'), 'plt2': (fs, '/work/plt2')}, run, expd))
         v2 = {'signature': sig, 'what': v['what'], 'replay': d}
         if status == 'reproduced':
             res['violations'].append(v2)
